@@ -299,7 +299,33 @@ func rfRules(c *Ctx, r *Report, R1, R2, R3, R4, R5 string) {
 		}
 		p := fe2.eval(ri.Vals[0])
 		if k0, ok := p.isConst(); ok && k0 == 1 {
-			continue // fall-back "unit cost 1" on error paths
+			// fall-back "unit cost 1" where there is no answer to decode - but not as a
+			// replacement for a value decoded from the tariff: the server applied that value
+			for _, b := range getUC.Blocks {
+				if len(b.Instrs) == 0 || len(b.Succs) != 2 {
+					continue
+				}
+				iff, isIf := b.Instrs[len(b.Instrs)-1].(*ssa.If)
+				if !isIf {
+					continue
+				}
+				bo, isBo := iff.Cond.(*ssa.BinOp)
+				if !isBo {
+					continue
+				}
+				for _, op := range []ssa.Value{bo.X, bo.Y} {
+					of := fe2.eval(op).String()
+					if !strings.Contains(of, "ValueDigits") && !strings.Contains(of, "Exponent") {
+						continue
+					}
+					for _, sc := range b.Succs {
+						if b.Succs[0] != b.Succs[1] && edgeDominates(b, sc, ri.At) {
+							clientForms = append(clientForms, "1 when "+normaliseUC(of)+" "+bo.Op.String()+" "+describe(otherOperand(bo, op))+" decides so (at "+c.rel(bo.Pos())+")")
+						}
+					}
+				}
+			}
+			continue
 		}
 		clientForms = append(clientForms, normaliseUC(p.String()))
 	}
@@ -409,4 +435,11 @@ func storesToFieldDeep(f *ssa.Function, alloc *ssa.Alloc, name string) []*ssa.St
 		}
 	})
 	return out
+}
+
+func otherOperand(bo *ssa.BinOp, op ssa.Value) ssa.Value {
+	if bo.X == op {
+		return bo.Y
+	}
+	return bo.X
 }
